@@ -209,11 +209,14 @@ def common_kwargs(case: dict) -> dict:
 
 def scratch_path(tag: str) -> str:
     d = os.environ.get("VF_SCRATCH")
-    if not d:
+    if not d:  # --replay runs in-process without a shard scratch dir: private temp dir, removed at exit
+        import atexit
+        import shutil
         import tempfile
 
         d = tempfile.mkdtemp(prefix="vf-c15-")
         os.environ["VF_SCRATCH"] = d
+        atexit.register(shutil.rmtree, d, True)
     sub = os.path.join(d, "c15")
     os.makedirs(sub, exist_ok=True)
     return os.path.join(sub, f"{tag}-{os.getpid()}-{next(_counter)}.tif")
@@ -421,7 +424,7 @@ def classify(case, T, n_ovr: int, existing: bool = False) -> None:
 def s_shape(draw, kinds):
     kind = draw(st.sampled_from(kinds))
     if kind == "tiny":
-        side = st.one_of(st.just(1), st.integers(2, 24), st.integers(2, 24))
+        side = st.one_of(st.just(1), st.integers(2, 24), st.integers(2, 24), st.integers(2, 24))
         ny, nx = draw(side), draw(side)
     elif kind == "small":
         ny, nx = draw(st.integers(15, 300)), draw(st.integers(15, 300))
@@ -476,7 +479,7 @@ def s_img(draw, kinds):
         if kind == "tiny":
             opts += [ny, nx]
         nb = draw(st.sampled_from(opts))
-        if kind == "tiny" and draw(st.integers(0, 24)) == 0:  # the ambiguous cube, to be excluded and counted
+        if kind == "tiny" and draw(st.integers(0, 39)) == 0:  # the ambiguous cube, to be excluded and counted
             nb = ny = nx = draw(st.integers(1, 6))
     dtype = draw(st.sampled_from(DTYPES if not big else DTYPES + ["uint8", "int16", "uint8"]))
     # a rotated box with a one-pixel side does not survive wrap_xr -> .odc.geobox (C09's domain, excluded by the
@@ -795,9 +798,9 @@ def o_existing(case, T):
 
 
 def build(chk: Check) -> None:
-    chk.sub("roundtrip", o_roundtrip, strategy=s_roundtrip(), n={"quick": 560, "thorough": 9000},
+    chk.sub("roundtrip", o_roundtrip, strategy=s_roundtrip(), n={"quick": 560, "thorough": 24000},
             budget_s={"quick": 70, "thorough": 800}, shrink=False)
-    chk.sub("supplied_overviews", o_layers, strategy=s_layers(), n={"quick": 240, "thorough": 4000},
+    chk.sub("supplied_overviews", o_layers, strategy=s_layers(), n={"quick": 240, "thorough": 10000},
             budget_s={"quick": 40, "thorough": 500}, shrink=False)
-    chk.sub("existing_destination", o_existing, strategy=s_existing(), n={"quick": 160, "thorough": 3000},
+    chk.sub("existing_destination", o_existing, strategy=s_existing(), n={"quick": 160, "thorough": 8000},
             budget_s={"quick": 40, "thorough": 400}, shrink=False)
